@@ -598,7 +598,7 @@ int main(int argc, char **argv)
         int e, lvl;
         if (n > 1) { snapshot(0); hb = fnv(14695981039346656037ull, SN, SNlen);
           if (verbose && k == 0) { printf("BEFORE\n"); fwrite(SN, 1, SNlen, stdout); printf("ENDDUMP\n"); } }
-        alarm(20);
+        alarm(6);
         if (call(name)) { printf("UNKNOWN-OP %s\n", name); alarm(0); break; }
         alarm(0);
         if (RSKIP) { printf("SKIP\n"); break; }
